@@ -305,3 +305,27 @@ def register(M):
     M('C07_lastblock', ['C07'], 'docstr/docscrape_google.py',
       "    for k, lines in groups_.items():", "    for k, lines in list(groups_.items())[:6]:",
       'at most six groups of a google docstring are kept')
+
+    # ---- C16 ---------------------------------------------------------------
+    M('C16_defmod', ['C16'], 'dynamic_analysis.py',
+      "        if getattr(item, '__module__', None) == target_modname:\n            flag = True\n        elif",
+      "        if getattr(item, '__module__', None) is not None:\n            flag = True\n        elif",
+      'is_defined_by_module no longer compares __module__ (imported callables are collected dynamically)')
+    M('C16_nested', ['C16'], 'dynamic_analysis.py',
+      "                if isinstance(subval, valid_func_types):\n                    if not _recurse(subval, module):",
+      "                if isinstance(subval, valid_func_types + (type,)):\n                    if not _recurse(subval, module):",
+      'dynamic walk yields nested classes')
+    M('C16_fset', ['C16'], 'dynamic_analysis.py',
+      "                        item = subval.fget\n", "                        item = subval.fset or subval.fget\n",
+      'property unwrapped through fset')
+    M('C16_static_sm', ['C16', 'C07'], 'static_analysis.py',
+      "                    if decor.id == 'property':\n                        # likely a getter property\n                        # should we distinguish getters?\n                        # callname = callname + '.fget'\n                        pass",
+      "                    if decor.id == 'staticmethod' and len(node.decorator_list) > 0 and node.body and len(node.body) > 2:\n                        return",
+      'static visitor drops static methods with more than two body statements')
+    M('C16_nocm', ['C16'], 'dynamic_analysis.py',
+      "        classmethod,\n        staticmethod,\n        property,\n    )", "        staticmethod,\n        property,\n    )",
+      'dynamic walk ignores classmethods')
+    M('C16_dunder_meth', ['C16'], 'dynamic_analysis.py',
+      "                if isinstance(subval, valid_func_types):\n                    if not _recurse(subval, module):",
+      "                if isinstance(subval, valid_func_types) and not subkey.startswith('__'):\n                    if not _recurse(subval, module):",
+      'dynamic walk skips dunder methods')
